@@ -389,9 +389,11 @@ class Interp:
         lv = ("loopvar", lid, ast.unparse(s.target))
         self.loops[lid].target = lv
         self._loopstack.append(lid)
+        ev0 = len(self.events)
         self.assign(s.target, lv, s, from_loop=True)
         self.exec_block(s.body)
         self._loopstack.pop()
+        self._resolve_unassigned_mu(lid, ev0)
         self.emit("loop_exit", s, loop=lid)
         if s.orelse:
             self.exec_block(s.orelse)
@@ -406,10 +408,49 @@ class Interp:
         cond = self.expr(s.test)
         self.loops[lid].iter = cond
         self._loopstack.append(lid)
+        ev0 = len(self.events)
         self.exec_block(s.body)
         self._loopstack.pop()
+        self._resolve_unassigned_mu(lid, ev0)
         self.emit("loop_exit", s, loop=lid)
         return False
+
+    def _resolve_unassigned_mu(self, lid: int, ev0: int) -> None:
+        """A name that is syntactically assigned in a loop body but whose assignment was folded away (guard decided
+        statically) is not loop-carried: replace its mu term by the value it had at loop entry."""
+        assigned = set()
+        for ev in self.events[ev0:]:
+            if ev.kind in ("assign", "aug") and lid in ev.loops and ev.data.get("name"):
+                assigned.add(ev.data["name"])
+        dead = {}
+
+        def collect(t):
+            for x in walk(t):
+                if x[0] == "mu" and x[1] == lid and x[2] not in assigned and x[3] is not None:
+                    dead[x] = x[3]
+        for ev in self.events[ev0:]:
+            for v in ev.data.values():
+                if isinstance(v, tuple):
+                    collect(v)
+        for v in list(self.env.values()) + list(self.self_attrs.values()):
+            collect(v)
+        if not dead:
+            return
+
+        def fn(x):
+            return dead.get(x)
+        for _ in range(3):
+            for ev in self.events[ev0:]:
+                for k, v in list(ev.data.items()):
+                    if isinstance(v, tuple):
+                        ev.data[k] = subst(v, fn)
+            for k in list(self.env):
+                self.env[k] = subst(self.env[k], fn)
+            for k in list(self.self_attrs):
+                self.self_attrs[k] = subst(self.self_attrs[k], fn)
+        for li in self.loops.values():
+            if li.iter is not None:
+                li.iter = subst(li.iter, fn)
 
     # ------------------------------------------------------------------ assignment
     def assign(self, tgt: ast.expr, v: Term, stmt: ast.stmt, from_loop: bool = False) -> None:
